@@ -140,6 +140,8 @@ pub struct Client {
     handles: BTreeMap<u64, client::Channel<Req, Resp>>,
     next_handle: u64,
     calls: Vec<CallSlot>,
+    call_bodies: Vec<u64>,
+    max_in_flight: usize,
 }
 
 fn panic_site(p: &(dyn std::any::Any + Send)) -> String {
@@ -166,6 +168,10 @@ fn panic_site(p: &(dyn std::any::Any + Send)) -> String {
 impl Client {
     pub fn new(name: &str, max_in_flight: usize, buf: usize, cap: usize, coupled: bool) -> Client {
         let sim = Rc::new(RefCell::new(SimState::new(name, cap, coupled, show_client_msg as fn(&_) -> String, show_response as fn(&_) -> String)));
+        sim.borrow_mut().body_of = Some(|m: &ClientMessage<Req>| match m {
+            ClientMessage::Request(r) => Some(r.message),
+            _ => None,
+        });
         let mut config = client::Config::default();
         config.max_in_flight_requests = max_in_flight;
         config.pending_request_buffer = buf;
@@ -184,6 +190,8 @@ impl Client {
             handles,
             next_handle: 1,
             calls: vec![],
+            call_bodies: vec![],
+            max_in_flight,
         }
     }
 
@@ -221,6 +229,7 @@ impl Client {
         let (fw, waker) = flag_waker(&format!("c{cid}"));
         let fut: CallFut = Box::pin(async move { ch.call(ctx, body).await });
         self.calls.push(CallSlot { fut: Some(fut), fw, waker });
+        self.call_bodies.push(body);
         Some(cid)
     }
 
@@ -338,6 +347,45 @@ impl Client {
         }
     }
 
+    /// Polls woken tasks (dispatch first, then calls in creation order) until none is woken, then
+    /// reports the calls that are stuck (mirrors `Client/Settle.lean`).
+    pub fn settle(&mut self) {
+        for _ in 0..400 {
+            if self.dispatch_woken() {
+                self.poll_dispatch();
+            } else if let Some(c) = (0..self.calls.len()).find(|c| self.call_woken(*c)) {
+                self.poll_call(c);
+            } else {
+                break;
+            }
+        }
+        if self.dispatch_woken() || (0..self.calls.len()).any(|c| self.call_woken(c)) {
+            log("settled ok".into());
+            return;
+        }
+        let (ready_now, term) = {
+            let s = self.sim.borrow();
+            (if s.coupled { s.buffered.len() < s.cap } else { s.ready_open && s.buffered.len() < s.cap }, s.term_seen)
+        };
+        let inflight = self.dispatch.as_ref().map(|d| d.verif_counts().0).unwrap_or(0);
+        let at_capacity = self.dispatch.is_some() && inflight >= self.max_in_flight;
+        let mut stuck = vec![];
+        for c in 0..self.calls.len() {
+            if !self.call_live(c) {
+                continue;
+            }
+            let written = self.sim.borrow().sent_bodies.contains(&self.call_bodies[c]);
+            if !(written || !ready_now || at_capacity || term) {
+                stuck.push(format!("c{c}"));
+            }
+        }
+        if stuck.is_empty() {
+            log("settled ok".into());
+        } else {
+            log(format!("settled stuck {}", stuck.join(" ")));
+        }
+    }
+
     pub fn drop_dispatch(&mut self) {
         if self.dispatch.is_none() {
             log("noop".into());
@@ -368,6 +416,7 @@ pub enum Op {
     Fault(&'static str),
     Take(usize),
     Advance(u64),
+    Settle,
 }
 
 fn site_of(s: &str) -> Option<&'static str> {
@@ -435,11 +484,13 @@ impl Op {
             ["fault", k] => Some(Op::Fault(fault_kind(k)?)),
             ["take", n] => Some(Op::Take(n.parse().ok()?)),
             ["advance", n] => Some(Op::Advance(n.parse().ok()?)),
+            ["settle"] => Some(Op::Settle),
             _ => None,
         }
     }
     pub fn render(&self) -> String {
         match self {
+            Op::Settle => "settle".into(),
             Op::Call { h, d, tid, span, sampled, body } => {
                 format!("call h={h} d={d} t={tid}/{span}/{} b={body}", if *sampled { 1 } else { 0 })
             }
@@ -541,6 +592,7 @@ pub fn apply(out: &mut Out, rt: &tokio::runtime::Runtime, cl: &mut Client, op: &
         Op::Advance(n) => {
             rt.block_on(tokio::time::advance(Duration::from_nanos(*n)));
         }
+        Op::Settle => cl.settle(),
     }
     flush_log(out);
 }
@@ -583,6 +635,7 @@ fn gen_op(rng: &mut Rng, cl: &Client, g: &mut Gen, p: &Params) -> Op {
         if p.faults { 1 } else { 0 },                                      // 10 inject err / eof
         if handles.is_empty() { 0 } else { 2 },                            // 11 clone / drop handle
         if p.faults && cl.dispatch_alive() { 1 } else { 0 },               // 12 drop-dispatch
+        if p.wo { 6 } else { 0 },                                          // 13 settle
     ];
     match rng.weighted(&w) {
         0 => {
@@ -665,7 +718,8 @@ fn gen_op(rng: &mut Rng, cl: &Client, g: &mut Gen, p: &Params) -> Op {
                 Op::DropHandle(*rng.pick(&handles))
             }
         }
-        _ => Op::DropDispatch,
+        12 => Op::DropDispatch,
+        _ => Op::Settle,
     }
 }
 
